@@ -378,10 +378,10 @@ def _alarm(signum, frame):
     raise _Timeout()
 
 
-def impl_resolve(w, rs, data):
+def impl_resolve(w, rs, data, stream=None):
     """one call of the implementation, with a time limit: a decoder that loses alignment can loop over a huge count"""
     import signal
-    fo = io.BytesIO(data)
+    fo = io.BytesIO(data) if stream is None else stream
     old = signal.signal(signal.SIGALRM, _alarm)
     signal.setitimer(signal.ITIMER_REAL, 5)
     try:
@@ -397,7 +397,7 @@ def impl_resolve(w, rs, data):
     finally:
         signal.setitimer(signal.ITIMER_REAL, 0)
         signal.signal(signal.SIGALRM, old)
-    return {"ok": to_wire(v), "rest": len(data) - fo.tell()}
+    return {"ok": to_wire(v), "rest": (len(data) - fo.tell()) if stream is None else None}
 
 
 def impl_container(w, rs, values):
@@ -510,6 +510,18 @@ def run(tier, seed):
             case["impl"], case["spec"] = ir, sp
             run.fail(case, why, kind="oracle")
             continue
+        # the same read from other kinds of input stream (an object with read() only; a buffered reader over a
+        # forward-only io stream, which HAS a seek attribute but cannot seek): same value / same kind of outcome
+        if k % 4 == 0:
+            from props.streams import ReadOnly as _RO, RawForward as _RF
+            for kind, st in (("read-only-object", _RO(b)), ("buffered-over-forward-only", io.BufferedReader(_RF(b)))):
+                ir2 = impl_resolve(w, rs, b, stream=st)
+                run.cov["evaluations"] += 1
+                if ("ok" in ir) != ("ok" in ir2) or ("ok" in ir and canon(ir["ok"]) != canon(ir2["ok"])):
+                    run.fail(dict(case, impl=ir, impl_other_stream=ir2, stream=kind, tags=list(labels) + ["stream"]),
+                             "resolution gives another result when the input is a %s" % kind, kind="oracle")
+                    break
+            run.tag("streams")
         # correspondence with the model (error class matters for resolution errors)
         if ("ok" in ir) != ("ok" in mo) or ("ok" in ir and (canon(ir["ok"]) != canon(mo["ok"]) or ir["rest"] != mo["rest"])) \
                 or ("err" in ir and (ir["err"] == "resolution") != (mo.get("err") == "resolution")):
@@ -600,7 +612,7 @@ def merged_family(seed, n):
         rrec = {"type": "record", "name": "Point", "namespace": "a", "fields": rfields}
         if style == "alias":
             rrec["aliases"] = ["a.Dot"]
-        shape = r.choice(["fields", "array-of-union", "map-then-field"])
+        shape = r.choice(["fields", "array-of-union", "map-then-field", "reader-union-two-matching"])
         order = r.random() < 0.5
         if shape == "fields":
             wa, wb = (w1, w2) if order else (w2, w1)
@@ -617,6 +629,22 @@ def merged_family(seed, n):
                     full = (ww.get("namespace", "") + "." + ww["name"]).lstrip(".")
                     xs.append((full, {f["name"]: types[f["name"]][1](r) for f in ww["fields"]}))
                 return xs
+        elif shape == "reader-union-two-matching":
+            # a reader union with TWO named branches that both match the writer's record by unqualified name / alias:
+            # the first one is resolved — also when resolution then fails inside the value (no second try)
+            rrec2 = copy.deepcopy(rrec)
+            rrec2["namespace"] = "v2"
+            rrec2["fields"] = [dict(f, default=(f["default"] if "default" in f else
+                                               (types[f["name"]][1](r).decode("iso-8859-1") if types[f["name"]][0] == "bytes" else types[f["name"]][1](r))))
+                               for f in rrec2["fields"]]
+            if style == "alias":
+                rrec2["aliases"] = ["a.Dot", "a.Point"]
+            first_second = [rrec, rrec2] if r.random() < 0.7 else [rrec2, rrec]
+            w = {"type": "record", "name": "Top", "fields": [{"name": "p", "type": w1}, {"name": "n", "type": "long"}, {"name": "q", "type": ["null", w2]}]}
+            rs = {"type": "record", "name": "Top", "fields": [{"name": "p", "type": first_second}, {"name": "n", "type": "long"},
+                                                              {"name": "q", "type": ["null", "a.Point" if first_second[0] is rrec else "v2.Point"]}]}
+            mk = lambda: {"p": {f["name"]: types[f["name"]][1](r) for f in w1["fields"]}, "n": r.randint(-9, 9),
+                          "q": r.choice([None, {f["name"]: types[f["name"]][1](r) for f in w2["fields"]}])}
         else:
             w = {"type": "record", "name": "Top", "fields": [{"name": "m", "type": {"type": "map", "values": w1}}, {"name": "q", "type": w2}]}
             rs = {"type": "record", "name": "Top", "fields": [{"name": "m", "type": {"type": "map", "values": rrec}}, {"name": "q", "type": "a.Point"}]}
